@@ -469,6 +469,15 @@ def cfi_shapes(tier):
                   [ins("b1", 0, "mov"), ins("b2", 0, "cfi:.cfi_undefined 3")],
                   [dele("b1", 0, 2), ins("b1", 3, "cfi:.cfi_undefined 3")],
                   [dele("b0", 0, 2), dele("b1", 0, 3), dele("b2", 0, 2)]]
+    # labels between the directives of a patch (each label opens an empty block that the assembler merges away), and a
+    # directive behind the last label of a patch (its block is empty and labelled)
+    labelled = "cfi:.La:;.cfi_def_cfa_offset 32;.Lb:;.cfi_adjust_cfa_offset 8;.Lc:;.cfi_undefined 4"
+    text_mods += [[ins("b1", 1, labelled)], [ins("b1", 0, labelled)],
+                  [ins("b1", 1, "cfi:.cfi_adjust_cfa_offset 8;.Lr:;.cfi_adjust_cfa_offset -8")],
+                  # a patch that ENDS in a label followed by a directive: the directive describes what follows the patch
+                  [ins("b1", 1, "cfiraw:mov ecx, 1;.cfi_adjust_cfa_offset 8;jmp s0;.Lr:;.cfi_adjust_cfa_offset -8")],
+                  [ins("b1", 1, "cfiraw:mov ecx, 1;.cfi_adjust_cfa_offset 8;mov ecx, 2;.Lr:;.cfi_adjust_cfa_offset -8")],
+                  [ins("b1", 3, "cfiraw:mov ecx, 1;.cfi_adjust_cfa_offset 8;mov ecx, 2;.Lr:;.cfi_adjust_cfa_offset -8")]]
     for kind in ("one", "two", "same-offset"):
         for mods in text_mods:
             spec = cfi_layout(kind)
